@@ -108,8 +108,18 @@ def cli_case(ctx, case):
     argv = [os.path.relpath(main, cwd) if case.get('relmain') else main]
     if case['compress']:
         argv.append('-c')
+    if case.get('verbose'):
+        argv.append('-v')
+    inc_dirs = [inc_dir]
+    if case.get('two_inc'):
+        # two -i directories that both hold lib.asm, given in NON-sorted order: the command-line order is the search order
+        inc_dirs = [os.path.join(base, 'zz_first'), os.path.join(base, 'aa_second')]
+        for d, k in zip(inc_dirs, (7, 9)):
+            os.makedirs(d)
+            open(os.path.join(d, 'lib.asm'), 'w').write(LIB.replace('LIBK = 7', 'LIBK = %d' % k))
     if case['prog'] == 'inc' or (crash and crash[0] == 'option' and crash[1] == 'bad-include-dir'):
-        argv += ['-i', os.path.relpath(inc_dir, cwd) if case.get('relmain') else inc_dir]
+        for d in inc_dirs:
+            argv += ['-i', os.path.relpath(d, cwd) if case.get('relmain') else d]
     if case['prog'] == 'defs':
         argv.append('--include-definitions')
     if case['out'] != 'default':
@@ -127,7 +137,7 @@ def cli_case(ctx, case):
     exp = None
     if not (crash and crash[0] in ('natural',)):
         labels = {}
-        incs = ([inc_dir] if '-i' in argv else []) + ([os.path.join(os.path.dirname(asm.__file__), 'definitions')] if case['prog'] == 'defs' else [])
+        incs = (inc_dirs if '-i' in argv else []) + ([os.path.join(os.path.dirname(asm.__file__), 'definitions')] if case['prog'] == 'defs' else [])
         exp = (bytes(asm.assemble(main, compress=case['compress'], include_dirs=incs, labels=labels)), labels)
     if case['hex'] in ('END', 'END+1', 'END+2') and exp:
         # resolve the symbolic boundary offsets now that the program length is known
@@ -257,6 +267,12 @@ def run(tier, seed, t0):
     for prog, comp, lab, out in base_opts:
         for hx in HEX_VALID + HEX_INVALID:
             cases.append(dict(prog=prog, compress=comp, labels=lab, out=out, hex=hx, relmain=(lab == 'rel')))
+    # (1b) verbose output and two -i directories holding the same file name (command-line order must be the search order)
+    for prog, comp, lab, out in base_opts:
+        for hx in (None, '0x08000000'):
+            cases.append(dict(prog=prog, compress=comp, labels=lab, out=out, hex=hx, verbose=True))
+            if prog == 'inc':
+                cases.append(dict(prog=prog, compress=comp, labels=lab, out=out, hex=hx, two_inc=True, verbose=(lab == 'abs')))
     # (2) every pass x entry/exit x exception kind, on the option sets that write all three files
     crash_opts = [(p, c, l, o) for p, c, l, o in base_opts if l is not None]
     if tier == 'quick':
@@ -285,7 +301,7 @@ def run(tier, seed, t0):
                rule='one state per (program, option set, crash point); one execution of the real cli_main each (plus real sub-processes for a sub-set); non-trivial = runs that must fail '
                     'while older output / label / hex files exist',
                exhaustive=True, passes_discovered=passes, successful_runs=n['successful_runs'], failing_runs=n['failing_runs'], subprocess_runs=n['subprocess_runs'],
-               bound='4 programs x -c x 3 label-file options x 3 output options x 9 hex-offset values without crash; %d discovered pass functions x entry/exit x {AssemblerError, foreign exception} '
+               bound='4 programs x -c x 3 label-file options x 3 output options x 12 hex-offset values without crash (a sub-set again with -v and with two -i directories holding the same file); %d discovered pass functions x entry/exit x {AssemblerError, foreign exception} '
                      'x %d option sets; %d naturally failing programs x 2 modes x 3 file layouts x 2 hex options; invalid -i / missing input' % (len(passes), len(crash_opts), len(NATURAL)))
     return kernel.finish(PROP, tier, seed, t0, m, cov, [
         'in-process cli_main with argv / cwd / stdout / stderr owned by the driver, validated against real processes on a sub-set',
